@@ -3,6 +3,7 @@ import Beetswap.Model.ServerHandler
 import Driver.NodeIO
 import Driver.CidIO
 import Driver.Monitor
+import Driver.HandlerVal
 open Beetswap
 
 def splitAt (bs : List Nat) (cuts : List Nat) : List (List Nat) :=
@@ -101,7 +102,31 @@ def monitorMain (opsFile implFile : String) : IO Unit := do
     n := n + 1
   out.putStrLn s!"monitored {n}"
 
+/-- `bsdriver hvalidate <handler log>`: lines `r=<run> n=<node> c=<conn> p=<peer> <event…>`; the events of
+each (run, node, connection) are validated against the handler automaton. -/
+def hvalidateMain (file : String) : IO Unit := do
+  let lines := ((← IO.FS.readFile file).splitOn "\n").filter (!·.isEmpty)
+  let out ← IO.getStdout
+  let mut groups : Std.HashMap String (List String) := {}
+  let mut order : List String := []
+  for l in lines do
+    match l.splitOn " " with
+    | r :: n :: c :: _p :: rest =>
+      let key := s!"{r} {n} {c}"
+      if !groups.contains key then order := key :: order
+      groups := groups.insert key ((groups.getD key []) ++ [" ".intercalate rest])
+    | _ => pure ()
+  let mut bad := 0
+  for key in order.reverse do
+    match Driver.HandlerVal.validate (groups.getD key []) with
+    | some (i, l) =>
+      bad := bad + 1
+      out.putStrLn s!"hviol {key} event {i}: `{l}` is not explained by the handler automaton"
+    | none => pure ()
+  out.putStrLn s!"hvalidated connections={order.length} lines={lines.length} rejected={bad}"
+
 def main (args : List String) : IO Unit := do
   match args with
   | ["monitor", ops, imp] => monitorMain ops imp
+  | ["hvalidate", file] => hvalidateMain file
   | _ => loop (← IO.getStdin) (← IO.getStdout) {}
